@@ -180,3 +180,159 @@ fn c04_twin_must_fail() {
 	assert!(!at, "TWIN a key is never found (must fail)");
 	std::mem::forget(node);
 }
+
+// =====================================================================================
+// C04.R: Node::rebalance on a parent with three children held in the harness (fetch_child / write_node_plan /
+// write_plan_remove_node by contract): whichever of borrow-from-left, borrow-from-right or merge is taken, the in-order
+// sequence of (key, value address) pairs and the left-to-right sequence of grandchildren are exactly what they were,
+// the under-full child is repaired, and a merged-away node is released exactly once.
+// =====================================================================================
+pub static mut RB_KEYS: [[u8; 8]; 3] = [[0; 8]; 3];
+pub static mut RB_N: [usize; 3] = [0; 3];
+pub static mut RB_INNER: bool = false;
+pub static mut RB_WROTE: [bool; 3] = [false; 3];
+pub static mut RB_OUT: [std::mem::MaybeUninit<Node>; 3] = [std::mem::MaybeUninit::uninit(), std::mem::MaybeUninit::uninit(), std::mem::MaybeUninit::uninit()];
+pub static mut RB_REMOVED: [bool; 3] = [false; 3];
+pub static mut RB_REMOVALS: usize = 0;
+
+fn rb_child(c: usize) -> Node {
+	let mut node = Node { separators: Default::default(), children: Default::default(), changed: false };
+	unsafe {
+		let mut j = 0;
+		while j < 8 { if j < RB_N[c] { node.separators[j] = sep(vec![RB_KEYS[c][j]], (10 * c + j + 1) as u64); } j += 1; }
+		if RB_INNER {
+			let mut j = 0;
+			while j <= 8 { if j <= RB_N[c] { node.children[j] = Child { moved: false, entry_index: Some(Address::from_u64((1000 + 10 * c + j) as u64)) }; } j += 1; }
+		}
+	}
+	node
+}
+
+pub fn stub_fetch_child<Q: LogQuery>(n: &Node, i: usize, _values: TablesRef, _log: &Q) -> Result<Option<Node>> {
+	match n.children[i].entry_index {
+		Some(a) => {
+			let c = (a.as_u64() - 200) as usize;
+			assert!(c < 3, "harness: parent children are 200..=202");
+			// a node already rewritten in this call is read back as written (the record overlay would return it)
+			if unsafe { RB_WROTE[c] } { Ok(Some(unsafe { RB_OUT[c].assume_init_ref().clone() })) } else { Ok(Some(rb_child(c))) }
+		},
+		None => Ok(None),
+	}
+}
+
+pub fn stub_write_node_plan(_t: TablesRef, node: Node, _w: &mut LogWriter, node_id: Option<Address>) -> Result<Option<Address>> {
+	let c = (node_id.expect("C04.R rebalance rewrites existing nodes").as_u64() - 200) as usize;
+	assert!(c < 3, "harness: only the three children are written");
+	unsafe { RB_OUT[c].as_mut_ptr().write(node); RB_WROTE[c] = true; }
+	Ok(None)
+}
+
+pub fn stub_remove_node(_t: TablesRef, _w: &mut LogWriter, node_index: Address) -> Result<()> {
+	let c = (node_index.as_u64() - 200) as usize;
+	assert!(c < 3, "harness: only children can be released");
+	unsafe { assert!(!RB_REMOVED[c], "C04.R a merged-away node is released once"); RB_REMOVED[c] = true; RB_REMOVALS += 1; }
+	Ok(())
+}
+
+/// sizes = separators in children 0..3 (the child `at` is the under-full one); parent has two separators.
+fn rebalance_case(sizes: [usize; 3], at: usize, inner: bool) {
+	let pk: [u8; 2] = kani::any();
+	unsafe {
+		RB_KEYS = kani::any(); RB_N = sizes; RB_INNER = inner;
+		RB_WROTE = [false; 3]; RB_REMOVED = [false; 3]; RB_REMOVALS = 0;
+	}
+	let mut parent = Node { separators: Default::default(), children: Default::default(), changed: false };
+	parent.separators[0] = sep(vec![pk[0]], 91);
+	parent.separators[1] = sep(vec![pk[1]], 92);
+	let mut c = 0;
+	while c < 3 { parent.children[c] = Child { moved: false, entry_index: Some(Address::from_u64(200 + c as u64)) }; c += 1; }
+	// expected in-order sequence of (key, value) and of grandchildren
+	let mut want: [(u8, u64); 26] = [(0, 0); 26];
+	let mut wn = 0;
+	let mut wantc: [u64; 27] = [0; 27];
+	let mut wcn = 0;
+	let mut c = 0;
+	while c < 3 {
+		let mut j = 0;
+		while j < 8 { if j < sizes[c] { want[wn] = (unsafe { RB_KEYS[c][j] }, (10 * c + j + 1) as u64); wn += 1; } j += 1; }
+		if inner { let mut j = 0; while j <= 8 { if j <= sizes[c] { wantc[wcn] = (1000 + 10 * c + j) as u64; wcn += 1; } j += 1; } }
+		if c < 2 { want[wn] = (pk[c], 91 + c as u64); wn += 1; }
+		c += 1;
+	}
+	let tables: [ValueTable; 0] = [];
+	let compression = crate::compress::Compress::new(crate::compress::CompressionType::NoCompression, u32::MAX);
+	let values = TablesRef { tables: &tables, compression: &compression, col: 0, preimage: false, ref_counted: false };
+	let overlays = crate::log::verif_kani::new_overlays();
+	let mut w = LogWriter::new(&overlays, 1);
+	let depth = if inner { 2 } else { 1 };
+	parent.rebalance(depth, at, values, &mut w).unwrap();
+	// read the tree back
+	let mut got: [(u8, u64); 26] = [(0, 0); 26];
+	let mut gn = 0;
+	let mut gotc: [u64; 27] = [0; 27];
+	let mut gcn = 0;
+	let np = parent.number_separator();
+	let mut i = 0;
+	while i < 3 {
+		if i <= np {
+			let a = parent.children[i].entry_index.expect("C04.R parent keeps a child left of / right of each separator").as_u64();
+			let c = (a - 200) as usize;
+			assert!(!unsafe { RB_REMOVED[c] }, "C04.R the parent never keeps a released node");
+			let node = if unsafe { RB_WROTE[c] } { unsafe { RB_OUT[c].assume_init_ref().clone() } } else { rb_child(c) };
+			let n = node.number_separator();
+			assert!(n >= 4 && n <= 8, "C04.R every child is within [ORDER/2, ORDER] separators after rebalancing");
+			let mut j = 0;
+			while j < 8 {
+				if j < n { let s = node.separators[j].separator.as_ref().unwrap(); got[gn] = (s.key[0], s.value.as_u64()); gn += 1; }
+				else { assert!(node.separators[j].separator.is_none(), "C04.R separators stay packed"); }
+				j += 1;
+			}
+			if inner {
+				let mut j = 0;
+				while j <= 8 {
+					if j <= n { gotc[gcn] = node.children[j].entry_index.expect("C04.R inner node has one more child than separators").as_u64(); gcn += 1; }
+					else { assert!(node.children[j].entry_index.is_none(), "C04.R children stay packed"); }
+					j += 1;
+				}
+			}
+			std::mem::forget(node);
+			if i < np { let s = parent.separators[i].separator.as_ref().unwrap(); got[gn] = (s.key[0], s.value.as_u64()); gn += 1; }
+		} else {
+			assert!(parent.children[i].entry_index.is_none(), "C04.R parent children stay packed");
+		}
+		i += 1;
+	}
+	assert!(gn == wn, "C04.R no key is lost or duplicated by rebalancing");
+	assert!(gcn == wcn, "C04.R no grandchild is lost or duplicated by rebalancing");
+	let j: usize = kani::any();
+	kani::assume(j < 26);
+	if j < wn { assert!(got[j] == want[j], "C04.R rebalancing keeps the in-order sequence of keys and value addresses"); }
+	let k: usize = kani::any();
+	kani::assume(k < 27);
+	if k < wcn { assert!(gotc[k] == wantc[k], "C04.R rebalancing keeps the left-to-right order of grandchildren"); }
+	assert!(unsafe { RB_REMOVALS } == 2 - np, "C04.R a node is released exactly when two children were merged");
+	assert!(parent.changed || np == 2, "C04.R a parent that lost a separator is marked changed");
+	kani::cover!(unsafe { RB_WROTE[0] || RB_WROTE[1] || RB_WROTE[2] });
+	std::mem::forget(parent); std::mem::forget(w); std::mem::forget(overlays);
+}
+
+macro_rules! c04_r {
+	($name:ident, $sizes:expr, $at:expr, $inner:expr) => {
+		crate::verif_env! {
+			#[kani::proof]
+			#[kani::unwind(12)]
+			#[kani::stub(crate::btree::node::Node::fetch_child, stub_fetch_child)]
+			#[kani::stub(crate::btree::BTreeTable::write_node_plan, stub_write_node_plan)]
+			#[kani::stub(crate::btree::BTreeTable::write_plan_remove_node, stub_remove_node)]
+			fn $name() { rebalance_case($sizes, $at, $inner) }
+		}
+	};
+}
+c04_r!(c04_r_rebalance_borrow_left_inner, [5, 3, 4], 1, true);
+c04_r!(c04_r_rebalance_borrow_left_leaf, [6, 3, 4], 1, false);
+c04_r!(c04_r_rebalance_borrow_right_inner_first, [3, 5, 4], 0, true);
+c04_r!(c04_r_rebalance_borrow_right_inner_mid, [4, 3, 6], 1, true);
+c04_r!(c04_r_rebalance_borrow_right_leaf, [3, 5, 4], 0, false);
+c04_r!(c04_r_rebalance_merge_mid_inner, [4, 3, 4], 1, true);
+c04_r!(c04_r_rebalance_merge_last_inner, [4, 4, 3], 2, true);
+c04_r!(c04_r_rebalance_merge_first_leaf, [3, 4, 4], 0, false);
